@@ -340,7 +340,12 @@ class CRFam(Family):
 
     def fingerprint(self, est, last=None):
         t = est.transform(self._q(est, last))
-        return _flat(t, est.beta_, est.sensitive_mean_) + _sflat(sorted(map(str, est.lookup_.items())))
+        fp = _flat(t, est.beta_, est.sensitive_mean_)
+        if self.cfg.get("named"):
+            # name -> position map learned by fit (for ndarray input it is the identity; a REJECTED refit with
+            # another width has already overwritten it -- partial mutation outside the property, not modelled)
+            fp += _sflat(sorted(map(str, est.lookup_.items())))
+        return fp
 
 
 class AdvFam(Family):
